@@ -56,20 +56,13 @@ func c36Exact(b []byte) []byte {
 	return out[:len(b):len(b)]
 }
 
-// c36Shape is the abstract shape of a case for signatures: which kind of
-// resource bodies it has.
-func c36Shape(d *c36Msg) string {
-	kind := ""
-	for _, r := range d.R {
-		if kind != "" && kind != r.B.K {
-			return "mixed"
-		}
-		kind = r.B.K
+// c36ErrKind abstracts an error of the package to its innermost message.
+func c36ErrKind(err error) string {
+	t := err.Error()
+	if i := strings.LastIndex(t, ": "); i >= 0 {
+		t = t[i+2:]
 	}
-	if kind == "" {
-		return "no-resources"
-	}
-	return kind
+	return strings.ReplaceAll(t, " ", "-")
 }
 
 type c36Opt struct {
@@ -98,7 +91,6 @@ func c36Check(w *vx.W, d c36Msg, o c36Opt) (ptrs int, ok bool) {
 			panic(fmt.Sprintf("c36 harness bug: reference codec does not round-trip:\nwant %s\ngot  %s", want, rd))
 		}
 	}
-	shape := c36Shape(&d)
 
 	// Wire images already verified in this case (the variants usually produce
 	// identical bytes; an identical image need not be decoded again).
@@ -147,7 +139,7 @@ func c36Check(w *vx.W, d c36Msg, o c36Opt) (ptrs int, ok bool) {
 	m := d.message()
 	packed, err := m.Pack()
 	if err != nil {
-		w.Failf("C36/pack/error/"+shape, "Pack of a well-formed message failed: %v\n%s", err, want)
+		w.Failf("C36/pack/error/"+c36ErrKind(err), "Pack of a well-formed message failed: %v\n%s", err, want)
 		return 0, false
 	}
 	ptrs, good := decode("pack", packed)
@@ -155,11 +147,11 @@ func c36Check(w *vx.W, d c36Msg, o c36Opt) (ptrs int, ok bool) {
 		return 0, false
 	}
 	if len(packed) > len(refWire) {
-		w.Failf("C36/pack/longer-than-uncompressed/"+shape, "Pack produced %d bytes, the uncompressed encoding has %d\n%s", len(packed), len(refWire), want)
+		w.Failf("C36/pack/longer-than-uncompressed", "Pack produced %d bytes, the uncompressed encoding has %d\n%s", len(packed), len(refWire), want)
 		return 0, false
 	}
 	if ptrs == 0 && !bytes.Equal(packed, refWire) {
-		w.Failf("C36/pack/uncompressed-wire-differs-from-rfc-reference/"+shape, "Pack used no pointers but produced %x, reference encoding %x", c36Short(packed), c36Short(refWire))
+		w.Failf("C36/pack/uncompressed-wire-differs-from-rfc-reference", "Pack used no pointers but produced %x, reference encoding %x", c36Short(packed), c36Short(refWire))
 		return 0, false
 	}
 	// Pack fills in Header.Type and Header.Length of every resource of m.
@@ -167,7 +159,7 @@ func c36Check(w *vx.W, d c36Msg, o c36Opt) (ptrs int, ok bool) {
 		w.Failf("C36/pack/header-type-not-filled-in/"+c36DiffKind(want, md), "after Pack the Message differs from what was packed (Header.Type must be the body's type)\nwant:\n%s\nmessage:\n%s", want, md)
 		return 0, false
 	} else if !c36LensEqual(mlens, packLens) {
-		w.Failf("C36/pack/header-length-not-filled-in/"+shape, "after Pack Header.Length of the resources is %v, RDLENGTHs on the wire are %v\n%s", mlens, packLens, want)
+		w.Failf("C36/pack/header-length-not-filled-in", "after Pack Header.Length of the resources is %v, RDLENGTHs on the wire are %v\n%s", mlens, packLens, want)
 		return 0, false
 	}
 
@@ -184,36 +176,36 @@ func c36Check(w *vx.W, d c36Msg, o c36Opt) (ptrs int, ok bool) {
 		m = d.message()
 		out, err := m.AppendPack(c36Exact(prefix))
 		if err != nil {
-			w.Failf("C36/appendpack"+tag+"/error/"+shape, "AppendPack failed: %v\n%s", err, want)
+			w.Failf("C36/appendpack"+tag+"/error/"+c36ErrKind(err), "AppendPack failed: %v\n%s", err, want)
 			return 0, false
 		}
 		if len(out) < len(prefix) || !bytes.Equal(out[:len(prefix)], prefix) {
-			w.Failf("C36/appendpack"+tag+"/clobbers-prefix/"+shape, "AppendPack changed the %d existing bytes", len(prefix))
+			w.Failf("C36/appendpack"+tag+"/clobbers-prefix", "AppendPack changed the %d existing bytes", len(prefix))
 			return 0, false
 		}
 		if _, good := decode("appendpack"+tag, out[len(prefix):]); !good {
 			return 0, false
 		}
 		if len(out)-len(prefix) > len(refWire) {
-			w.Failf("C36/appendpack"+tag+"/longer-than-uncompressed/"+shape, "AppendPack appended %d bytes, the uncompressed encoding has %d\n%s", len(out)-len(prefix), len(refWire), want)
+			w.Failf("C36/appendpack"+tag+"/longer-than-uncompressed", "AppendPack appended %d bytes, the uncompressed encoding has %d\n%s", len(out)-len(prefix), len(refWire), want)
 			return 0, false
 		}
 		// (4) Builder with compression behind a prefix (cap == len forces a move).
 		m = d.message()
 		out, err = c36Build(&m, c36Exact(prefix), true, true)
 		if err != nil {
-			w.Failf("C36/builder-compress"+tag+"/error/"+shape, "Builder failed: %v\n%s", err, want)
+			w.Failf("C36/builder-compress"+tag+"/error/"+c36ErrKind(err), "Builder failed: %v\n%s", err, want)
 			return 0, false
 		}
 		if len(out) < len(prefix) || !bytes.Equal(out[:len(prefix)], prefix) {
-			w.Failf("C36/builder-compress"+tag+"/clobbers-prefix/"+shape, "Builder changed the %d existing bytes", len(prefix))
+			w.Failf("C36/builder-compress"+tag+"/clobbers-prefix", "Builder changed the %d existing bytes", len(prefix))
 			return 0, false
 		}
 		if _, good := decode("builder-compress"+tag, out[len(prefix):]); !good {
 			return 0, false
 		}
 		if len(out)-len(prefix) > len(refWire) {
-			w.Failf("C36/builder-compress"+tag+"/longer-than-uncompressed/"+shape, "Builder with compression appended %d bytes, the uncompressed encoding has %d\n%s", len(out)-len(prefix), len(refWire), want)
+			w.Failf("C36/builder-compress"+tag+"/longer-than-uncompressed", "Builder with compression appended %d bytes, the uncompressed encoding has %d\n%s", len(out)-len(prefix), len(refWire), want)
 			return 0, false
 		}
 	}
@@ -222,11 +214,11 @@ func c36Check(w *vx.W, d c36Msg, o c36Opt) (ptrs int, ok bool) {
 	m = d.message()
 	out, err := c36Build(&m, nil, false, false)
 	if err != nil {
-		w.Failf("C36/builder-nocompress/error/"+shape, "Builder failed: %v\n%s", err, want)
+		w.Failf("C36/builder-nocompress/error/"+c36ErrKind(err), "Builder failed: %v\n%s", err, want)
 		return 0, false
 	}
 	if !bytes.Equal(out, refWire) {
-		w.Failf("C36/builder-nocompress/wire-differs-from-rfc-reference/"+shape, "Builder without compression produced %x, reference encoding %x\n%s", c36Short(out), c36Short(refWire), want)
+		w.Failf("C36/builder-nocompress/wire-differs-from-rfc-reference", "Builder without compression produced %x, reference encoding %x\n%s", c36Short(out), c36Short(refWire), want)
 		return 0, false
 	}
 	if _, good := decode("builder-nocompress", out); !good {
